@@ -7,7 +7,7 @@
 (* judges it with the operators of the specification family; see RTJudge   *)
 (* for how verdicts are collected.                                         *)
 (***************************************************************************)
-EXTENDS RTTransform, RTJudge
+EXTENDS RTTransform, RTPlan, RTTips, RTSelect, RTJudge
 
 Data  == JsonDeserialize(IOEnv.TRACE_FILE)
 Calls == Data.calls
@@ -62,9 +62,97 @@ JudgeTW(c) ==
   }
 
 (***************************************************************************)
+(* C06: partition_volume                                                   *)
+(***************************************************************************)
+JudgeSplit(c) == {
+    Cl("C06.helper", c.v >= 0 /\ c.M > 0, c.out = "ok" /\ IsValidSplit(c.v, c.M, c.steps)),
+    Cl("C06.helperzero", c.v = 0 /\ c.M > 0, c.out = "ok" /\ c.steps = <<>>)
+  }
+
+(***************************************************************************)
+(* C10: tip masks of aspirate_well / dispense_well                         *)
+(***************************************************************************)
+JudgeMask(c) == {
+    Cl("C10.mask", TipArgValid(c.tip), c.out = "ok" /\ c.nrec = 1 /\ c.rt = c.via /\ c.mask = TipArgMask(c.tip)),
+    Cl("C10.reject", ~TipArgValid(c.tip), c.out # "ok" /\ c.nrec = 0)
+  }
+
+(***************************************************************************)
+(* C12: EVO selection string                                               *)
+(***************************************************************************)
+JudgeSel(c) ==
+  LET sel == Range(c.sel) IN {
+    Cl("C12.faithful", TRUE, c.out = "ok" /\ Faithful(c.rows, c.cols, sel, c.codes)),
+    Cl("C12.encode", TRUE, c.out = "ok" /\ c.codes = Encode(c.rows, c.cols, sel)),
+    Cl("C12.array", TRUE, c.out = "ok" /\ c.arrok)
+  }
+
+(***************************************************************************)
+(* C18: partition_by_column / optimize_partition_by                        *)
+(***************************************************************************)
+JudgePart(c) ==
+  LET valid == c.mode \in {"source", "destination"} IN {
+    Cl("C18.partition", valid, c.out = "ok" /\ IsPartition(c.x, c.mode, c.groups)),
+    Cl("C18.badmode", ~valid /\ c.x # <<>>, c.out # "ok")
+  }
+
+JudgeOptPart(c) == {
+    Cl("C18.auto", ValidMode(c.mode), c.out = "ok" /\ c.res = AutoSide(c.st, c.dt, c.mode)),
+    Cl("C18.modename", ~ValidMode(c.mode), c.out # "ok")
+  }
+
+(***************************************************************************)
+(* C15: well transforms.  Arguments and results are logged in their shape; *)
+(* MapShape applies a well function elementwise, preserving the shape.     *)
+(***************************************************************************)
+MapShape(a, F(_)) ==
+  IF a.k = "s" THEN [k |-> "s", x |-> F(a.x)]
+  ELSE IF a.k = "l" THEN [k |-> "l", x |-> [j \in 1..Len(a.x) |-> F(a.x[j])]]
+  ELSE [k |-> "m", x |-> [r \in 1..Len(a.x) |-> [cc \in 1..Len(a.x[r]) |-> F(a.x[r][cc])]]]
+AllWells(a) == Range(FlattenF(a))
+
+JudgeShift(c) ==
+  LET fits == ShiftFits(c.A, c.B, c.anchor)
+      inA == \A w \in AllWells(c.wells) : InShape(c.A, w)
+  IN {
+    Cl("C15.shiftfits", TRUE, (c.ctor = "ok") <=> fits),
+    Cl("C15.shift", fits /\ inA /\ c.ctor = "ok",
+       c.out = "ok" /\ c.shifted = MapShape(c.wells, LAMBDA w : Shift(c.anchor, w))),
+    Cl("C15.unshift", fits /\ inA /\ c.ctor = "ok" /\ c.out = "ok", c.out2 = "ok" /\ c.unshifted = c.wells),
+    Cl("C15.shiftinside", fits /\ inA /\ c.ctor = "ok" /\ c.out = "ok", \A w \in AllWells(c.shifted) : InShape(c.B, w))
+  }
+
+JudgeRot(c) ==
+  LET sh == c.shape IN {
+    Cl("C15.rotcw", TRUE, c.out = "ok" /\ c.cw = MapShape(c.wells, LAMBDA w : RotCW(sh, w))),
+    Cl("C15.rotccw", TRUE, c.out = "ok" /\ c.ccw = MapShape(c.wells, LAMBDA w : RotCCW(sh, w))),
+    Cl("C15.rotinverse", c.out = "ok", c.cwccw = c.wells /\ c.ccwcw = c.wells),
+    Cl("C15.rotfour", c.out = "ok", c.cw4 = c.wells),
+    Cl("C15.rotinside", c.out = "ok", \A w \in AllWells(c.cw) \cup AllWells(c.ccw) : InShape(Swap(sh), w))
+  }
+
+JudgeRand(c) ==
+  LET sh == c.shape  tab == c.tab1 IN {
+    Cl("C15.randperm", TRUE, c.out = "ok" /\ TableIsPermutation(sh, tab)),
+    Cl("C15.randmode", c.out = "ok", TableKeepsMode(c.mode, tab)),
+    Cl("C15.randseed", c.out = "ok", c.tab1 = c.tab2),
+    Cl("C15.randomize", c.out = "ok" /\ TableIsPermutation(sh, tab),
+       c.rnd = MapShape(c.wells, LAMBDA w : Lookup(tab, w))),
+    Cl("C15.derandomize", c.out = "ok", c.back = c.wells)
+  }
+
+(***************************************************************************)
 JudgeCall(c) ==
   CASE c.fn = "geom" -> JudgeGeom(c)
     [] c.fn = "tw"   -> JudgeTW(c)
+    [] c.fn = "split" -> JudgeSplit(c)
+    [] c.fn = "mask" -> JudgeMask(c)
+    [] c.fn = "sel"  -> JudgeSel(c)
+    [] c.fn = "part" -> JudgePart(c)
+    [] c.fn = "optpart" -> JudgeOptPart(c)
+    [] c.fn = "shift" -> JudgeShift(c)
+    [] c.fn = "rot" -> JudgeRot(c)
+    [] c.fn = "rand" -> JudgeRand(c)
     [] OTHER -> {Cl("machinery.unknown_fn", TRUE, FALSE)}
 
 Init == i = 1 /\ InitRegisters
